@@ -1,7 +1,8 @@
 """C02 — outbound packets are spec-conformant and carry what the user supplied: configuration of ./check C02."""
 
 PROP = {'areas': [{'area': 'c02',
-            'corpus': ['corpus/C02/d3_subscribe_subid.txt', 'corpus/C02/boundaries.txt', 'corpus/C02/trailing_empty.txt'],
+            'corpus': ['corpus/C02/d3_subscribe_subid.txt', 'corpus/C02/boundaries.txt', 'corpus/C02/trailing_empty.txt',
+                       'corpus/C02/d28_nul_in_string.txt'],
             'quick': 20000,
             'thorough': 1000000},
            {'area': 'engine',
